@@ -89,6 +89,13 @@ FREE = [
     ["PUSH (or nat string) (Left 1)"], ["PUSH (or nat string) (Left 1)", "COMPARE"], ["PUSH (or nat string) (Right \"a\")"],
     ["PUSH (option (or nat string)) (Some (Left 1))"],
 ]
+_UNWRAP = "IF_NONE { UNIT ; FAILWITH } {}"
+TICKET_CELLS = [
+    ["PUSH nat 5", "PUSH nat 1", "TICKET", _UNWRAP], ["PUSH nat 3", "PUSH nat 1", "TICKET", _UNWRAP],
+    ["PAIR", "JOIN_TICKETS", _UNWRAP], ["PAIR", "JOIN_TICKETS", _UNWRAP], ["READ_TICKET", "DROP"],
+    ["PUSH (pair nat nat) (Pair 2 1)", "SWAP", "SPLIT_TICKET", _UNWRAP, "UNPAIR"], ["PUSH nat 2", "PUSH nat 1", "TICKET", _UNWRAP],
+    ["SWAP"], ["DUP 2", "DROP"],
+]
 MUTATING = ("UPDATE", "EMPTY_BIG_MAP", "PATCH", "BEGIN", "storage", "parameter", "DROP", "PUSH", "PAIR", "UNPAIR", "CDR", "DUP", "SWAP")
 BAD = {
     "failwith": ["UNIT", "FAILWITH"],
@@ -289,6 +296,10 @@ def sessions(draw, max_rounds):
     plan.append(["storage (%s)" % S_TYPES[sk]])
     plan.append(["parameter unit"])
     for _ in range(draw(st.integers(1, max_rounds))):
+        if draw(st.integers(0, 3)) == 0:   # tickets kept on the stack across cells, then joined / split / read
+            plan += [list(c) for c in TICKET_CELLS[:2]]
+            for _ in range(draw(st.integers(1, 3))):
+                plan.append(list(draw(st.sampled_from(TICKET_CELLS[2:]))))
         for _ in range(draw(st.integers(0, 2))):
             plan.append(list(draw(st.sampled_from(FREE))))
         plan.append(["BEGIN Unit %s" % draw(st.sampled_from(BEGIN_LIT[sk]))])
